@@ -98,10 +98,10 @@ Proof.
            end; injection H as <-; reflexivity.
 Qed.
 
-Lemma enc_ops_length posf pos fill rs : forall ops b,
+Lemma enc_ops_length posf pos rs : forall fill ops b,
   enc_ops posf pos fill rs ops = Some b -> N.of_nat (length b) = reads_len rs.
 Proof.
-  induction rs as [|r rs IH]; intros ops b H.
+  induction rs as [|r rs IH]; intros fill ops b H.
   - cbn [enc_ops] in H. destruct ops; [|discriminate]. injection H as <-. reflexivity.
   - cbn [reads_len].
     assert (G : forall ops b, (match ops with
@@ -112,21 +112,21 @@ Proof.
       destruct (enc_op posf pos r o) as [a|] eqn:Ea; [|discriminate].
       destruct (enc_ops posf pos fill rs ops') as [b'|] eqn:Eb; [|discriminate].
       injection H as <-. rewrite app_length, Nnat.Nat2N.inj_add.
-      rewrite (enc_op_length _ _ _ _ _ Ea), (IH _ _ Eb). reflexivity. }
+      rewrite (enc_op_length _ _ _ _ _ Ea), (IH _ _ _ Eb). reflexivity. }
     destruct r; try (apply (G ops b); exact H).
     (* RSkip8 *)
-    cbn [enc_ops] in H. destruct (enc_ops posf pos fill rs ops) as [b'|] eqn:Eb; [|discriminate].
-    injection H as <-. cbn [length rd_len]. rewrite Nnat.Nat2N.inj_succ, (IH _ _ Eb). lia.
+    cbn [enc_ops] in H. destruct (enc_ops posf pos (tl fill) rs ops) as [b'|] eqn:Eb; [|discriminate].
+    injection H as <-. cbn [length rd_len]. rewrite Nnat.Nat2N.inj_succ, (IH _ _ _ Eb). lia.
 Qed.
 
 Lemma enc_op_nobr_targets posf pos r o b :
   enc_op posf pos r o = Some b -> is_br r = false -> op_targets o = [].
 Proof. destruct r, o; cbn; intros; try reflexivity; discriminate. Qed.
 
-Lemma enc_ops_nobr_targets posf pos fill rs : forall ops b,
+Lemma enc_ops_nobr_targets posf pos rs : forall fill ops b,
   enc_ops posf pos fill rs ops = Some b -> no_br rs = true -> flat_map op_targets ops = [].
 Proof.
-  induction rs as [|r rs IH]; intros ops b H NB.
+  induction rs as [|r rs IH]; intros fill ops b H NB.
   - cbn [enc_ops] in H. destruct ops; [reflexivity|discriminate].
   - cbn [no_br forallb] in NB. apply andb_true_iff in NB. destruct NB as [NB1 NB2].
     apply negb_true_iff in NB1.
@@ -138,20 +138,20 @@ Proof.
       destruct (enc_op posf pos r o) as [a|] eqn:Ea; [|discriminate].
       destruct (enc_ops posf pos fill rs ops') as [b'|] eqn:Eb; [|discriminate].
       cbn [flat_map]. rewrite (enc_op_nobr_targets _ _ _ _ _ Ea NB1). cbn [app].
-      apply (IH _ _ Eb NB2). }
+      apply (IH _ _ _ Eb NB2). }
     destruct r; try (apply G; exact H).
-    cbn [enc_ops] in H. destruct (enc_ops posf pos fill rs ops) as [b'|] eqn:Eb; [|discriminate].
-    apply (IH _ _ Eb NB2).
+    cbn [enc_ops] in H. destruct (enc_ops posf pos (tl fill) rs ops) as [b'|] eqn:Eb; [|discriminate].
+    apply (IH _ _ _ Eb NB2).
 Qed.
 
 (* ---------------------------------------------------------------------------------------------- *)
 (* pass 2 on the operands *)
-Lemma dec_ops_enc_ops posf ls pos fill rs : forall ops b tail,
+Lemma dec_ops_enc_ops posf ls pos rs : forall fill ops b tail,
   enc_ops posf pos fill rs ops = Some b ->
   (forall t, In t (flat_map op_targets ops) -> posf t < 65536 /\ lbl_get ls (posf t) = true) ->
   dec_ops ls pos rs (b ++ tail) = Ok (map (map_op posf) ops, tail).
 Proof.
-  induction rs as [|r rs IH]; intros ops b tail H HT.
+  induction rs as [|r rs IH]; intros fill ops b tail H HT.
   - cbn [enc_ops] in H. destruct ops; [|discriminate]. injection H as <-. reflexivity.
   - destruct r.
     all: try (cbn [enc_ops] in H; destruct ops as [|o ops']; [discriminate|];
@@ -160,7 +160,7 @@ Proof.
       injection H as <-;
       assert (HT' : forall t, In t (flat_map op_targets ops') -> posf t < 65536 /\ lbl_get ls (posf t) = true)
         by (intros t Ht; apply HT; cbn [flat_map]; apply in_or_app; right; exact Ht);
-      specialize (IH _ _ tail Eb HT'); rewrite <- app_assoc;
+      specialize (IH _ _ _ tail Eb HT'); rewrite <- app_assoc;
       unfold enc_op in Ea; destruct o as [n|z|t|k' n]; try discriminate).
     + (* RU8 *) destruct (n <? 256); [|discriminate]. injection Ea as <-.
       cbn [dec_ops app rd_u8 bind]. rewrite IH. reflexivity.
@@ -183,8 +183,8 @@ Proof.
       rewrite (br_target_rel _ _ _ Hlt). cbn [bind]. unfold try_get. rewrite Hin. cbn [bind].
       rewrite IH. reflexivity.
     + (* RSkip8 *) cbn [enc_ops] in H.
-      destruct (enc_ops posf pos fill rs ops) as [b'|] eqn:Eb; [|discriminate]. injection H as <-.
-      cbn [dec_ops app rd_u8 bind]. apply (IH _ _ tail Eb HT).
+      destruct (enc_ops posf pos (tl fill) rs ops) as [b'|] eqn:Eb; [|discriminate]. injection H as <-.
+      cbn [dec_ops app rd_u8 bind]. apply (IH _ _ _ tail Eb HT).
     + (* RAtype *) destruct (mem_N n atypes) eqn:M; [|discriminate]. injection Ea as <-.
       cbn [dec_ops app rd_u8 bind]. rewrite M, IH. reflexivity.
     + (* RCp8 *) destruct (N.eqb_spec kind k') as [->|]; [|discriminate].
@@ -276,6 +276,8 @@ Proof. unfold pad_of. generalize (pos mod 4). intros x. lia. Qed.
 
 (* ---------------------------------------------------------------------------------------------- *)
 (* one instruction: length of its encoding *)
+Lemma pad_bytes_length fill n : length (pad_bytes fill n) = n.
+Proof. unfold pad_bytes. rewrite firstn_length, app_length, repeat_length. lia. Qed.
 Lemma enc1_length posf pos c i b : enc1 posf pos c i = Some b -> N.of_nat (length b) = size c pos i.
 Proof.
   unfold enc1, size. destruct i as [ctor ops|d lo hi tbl|d ps].
@@ -291,10 +293,10 @@ Proof.
       destruct (enc_ops posf pos (c_fill c) rs ops) as [b'|] eqn:E; [|discriminate].
       intros [= <-]. cbn [length p2_len]. rewrite !Nnat.Nat2N.inj_succ, (enc_ops_length _ _ _ _ _ _ E). lia.
   - match goal with |- (if ?c then _ else _) = _ -> _ => destruct c; [|discriminate] end.
-    intros H. apply Some_inj in H. subst b. cbn [length]. rewrite !app_length, repeat_length, arms_length.
+    intros H. apply Some_inj in H. subst b. cbn [length]. rewrite !app_length, pad_bytes_length, arms_length.
     cbn [bei32 be32 length]. lia.
   - match goal with |- (if ?c then _ else _) = _ -> _ => destruct c; [|discriminate] end.
-    intros H. apply Some_inj in H. subst b. cbn [length]. rewrite !app_length, repeat_length, pairs_length.
+    intros H. apply Some_inj in H. subst b. cbn [length]. rewrite !app_length, pad_bytes_length, pairs_length.
     cbn [bei32 be32 length]. lia.
 Qed.
 
@@ -310,8 +312,8 @@ Lemma lswitch_entries : pass2_entry op_LOOKUPSWITCH = P2LSwitch /\ pass1_class o
 Proof. split; reflexivity. Qed.
 
 Lemma repeat_skip fill pos (rest : bytes) :
-  skip_res (pad_of pos) (repeat fill (N.to_nat (pad_of pos)) ++ rest) = Ok rest.
-Proof. apply skip_res_app. rewrite repeat_length. lia. Qed.
+  skip_res (pad_of pos) (pad_bytes fill (N.to_nat (pad_of pos)) ++ rest) = Ok rest.
+Proof. apply skip_res_app. rewrite pad_bytes_length. lia. Qed.
 
 (* ---------------------------------------------------------------------------------------------- *)
 Ltac fin3 := match goal with |- Ok (?a, ?t, ?l) = Ok (?b, ?t, ?l) => replace a with b by lia; reflexivity end.
